@@ -52,7 +52,7 @@ CHECKS = {
    ref="5 C18"),
  "C10": dict(
    technique="TLA+ specs Gmw.tla (bit-level algebra of triple dealing and of an AND batch over all share/mask/OT values) and GmwPool.tla (producer/announce/deal/consume of the triple pool, SameWords + liveness) model-checked by TLC; real 2-5 party runs over loopback TCP with every party's AND-batch shares (verif hook) checked in full and validated by TLC against GmwTrace.tla; pool-alignment driver with identical Get sequences at different paces",
-   text="TLC checks TripleOK/AndOK for every assignment of shares, Deltas and OT outputs (2-3 parties exhaustively, 4 in simulation) and, for the pool, every interleaving of the leader's producer, the followers and the consumers (words consumed are the same at every party, every Get is served); real runs on circuits compiled for GMW (many AND levels, batch sizes 64k and not, > 4096 gates per level) with random start delays must return Compute's outputs at every party; for every AND batch the recorded shares of all parties must recombine (valid triple, correct opening, z = x AND y) - all words in the harness, sampled bits incl. word boundaries in TLC.",
+   text="TLC checks TripleOK/AndOK for every assignment of shares, Deltas and OT outputs (2 parties, thorough: 3 parties, exhaustively; quick: 3 parties in simulation) and, for the pool, every interleaving of the leader's producer, the followers and the consumers (words consumed are the same at every party, every Get is served); real runs on circuits compiled for GMW (many AND levels, batch sizes 64k and not, > 4096 gates per level) with random start delays must return Compute's outputs at every party; for every AND batch the recorded shares of all parties must recombine (valid triple, correct opening, z = x AND y) - all words in the harness, sampled bits incl. word boundaries in TLC.",
    note="Trusts TLC, loopback TCP, the verif hook in andBatchFlush (1 add-only call); privacy of the dealing (v = b is sent in clear) is outside C10.",
    ref="5 C10"),
  "C06": dict(
